@@ -19,6 +19,7 @@ import (
 	"github.com/go-git/go-git/v6/storage"
 	"github.com/go-git/go-git/v6/storage/filesystem"
 	"github.com/go-git/go-git/v6/storage/filesystem/dotgit"
+	"github.com/go-git/go-git/v6/utils/ioutil"
 	xstorage "github.com/go-git/go-git/v6/x/storage"
 )
 
@@ -347,9 +348,8 @@ func writeFile(wt billy.Filesystem, fn string, data []byte) (err error) {
 		return err
 	}
 
-	defer func() {
-		err = f.Close()
-	}()
+	// A failed write must not be hidden by a successful close.
+	defer ioutil.CheckClose(f, &err)
 
 	_, err = f.Write(append(data, []byte("\n")...))
 
